@@ -188,7 +188,7 @@ def run(tier, t0):
     for f in range(12):
         check_cell(acc, a5, (f,), 4)
     tasks = [('subtree', ((f, n), R), depth) for f in range(12) for n in range(5)]
-    level = 'basic' if tier == 'quick' else 'single'
+    level = 'single' if tier == 'quick' else 'pairs'
     tasks += [('deep', (f, r, level), depth) for r in range(R + 1, 30) for f in range(12)]
     tasks = common.rotate(tasks, common.seed())
     common.pmap_merge(work, tasks, acc)
